@@ -358,7 +358,18 @@ func (h *Session) purge(now time.Time) error {
 	if len(purge) > 0 {
 		h.mutex.Lock()
 		for _, v := range purge {
-			h.deleteHost(v)
+			// the selection was made under the row locks only: a frame parsed since then may have brought the host
+			// back (or given the address to another station). Look again now that the tables cannot change.
+			host := h.findIP(v)
+			if host == nil {
+				continue
+			}
+			host.MACEntry.Row.RLock()
+			stale := !host.Online && host.LastSeen.Before(deleteCutoff)
+			host.MACEntry.Row.RUnlock()
+			if stale {
+				h.deleteHost(v)
+			}
 		}
 		h.mutex.Unlock()
 	}
